@@ -81,7 +81,7 @@ func c04Isolation(c *vlib.Ctx) {
 				var after sig.PacketSig
 				if pi := vlib.Guard(func() { after = sig.Packet(p, true) }); pi == nil {
 					if ok, what := ref.Equal(after); !ok {
-						key := "packet-changes-with-callers-buffer:" + sig.DiffLayer(ref, after)
+						key := "packet-changes-with-callers-buffer:" + sig.DiffLayerFirst(ref, after, t.String())
 						if o.Pool {
 							key += ":pool"
 							if len(in) > 1500 {
@@ -102,7 +102,7 @@ func c04Isolation(c *vlib.Ctx) {
 					continue
 				}
 				if ok, what := ref.Equal(s); !ok {
-					key := "option-changes-result:" + sig.DiffLayer(ref, s) + ":" + map[bool]string{true: "Pool", false: "NoCopy"}[o.Pool]
+					key := "option-changes-result:" + sig.DiffLayerFirst(ref, s, t.String()) + ":" + map[bool]string{true: "Pool", false: "NoCopy"}[o.Pool]
 					if len(in) > 1500 {
 						key += ":larger-than-pool-block"
 					}
